@@ -197,6 +197,8 @@ class Check:
                              'values of the symbolic inputs; distinct by name',
                 samples=self.samples or [dict(note='no obligations ran')],
                 obligations_list=[dict(name=o['name'], verdict=o['verdict']) for o in self.obls][:400],
+                not_discharged=[dict(name=o['name'], verdict=o['verdict'], detail=o.get('detail')) for o in self.obls
+                                if o['verdict'] != 'discharged'][:200],
                 notes=self.notes,
             ),
             assumptions=self.assumptions,
@@ -322,7 +324,7 @@ def prove_paths(ck, name, fn, goals, replay, max_paths=500, assumptions=(), expe
                     raise symx.HarnessError('%s: replay failed %r (inputs %r)' % (oname, e, conc)) from e
                 if r is None:
                     sample['candidate'] = conc
-                    ck.record(oname, 'spurious', sample=sample)
+                    ck.record(oname, 'spurious', detail=dict(candidate=conc), sample=sample)
                 else:
                     key, what, rd = r
                     rd = dict(rd, inputs=conc, obligation=oname)
